@@ -51,6 +51,23 @@ def _stems(rng):
     return base
 
 
+# characters related to ASCII letters by some Unicode case operation other than str.lower() on ASCII: the statement fixes
+# "lower-cased", so an extension spelt with them is known exactly when its str.lower() is (casefold / upper / NFKC differ)
+_LOOKALIKE = {"s": ["\u017f"], "k": ["\u212a"], "i": ["\u0130", "\u0131"], "ss": ["\u00df"], "fi": ["\ufb01"], "fl": ["\ufb02"],
+              "st": ["\ufb06", "\ufb05"], "a": ["\uff41", "\uff21", "\u00aa"], "x": ["\uff58", "\u2179"], "m": ["\u217f", "\uff4d"],
+              "d": ["\u217e", "\uff44"], "c": ["\u217d"], "l": ["\u217c"], "o": ["\u00ba"], "t": ["\uff54"], "p": ["\uff50"]}
+
+
+def _lookalike_variants(ext):
+    out = []
+    for pat, subs in _LOOKALIKE.items():
+        i = ext.find(pat)
+        while i >= 0:
+            out += [ext[:i] + c + ext[i + len(pat):] for c in subs]
+            i = ext.find(pat, i + 1)
+    return out
+
+
 def _case_variants(rng, ext):
     vs = {ext, ext.upper(), ext.capitalize()}
     vs.add("".join(c.upper() if rng.random() < 0.5 else c for c in ext))
@@ -114,6 +131,11 @@ def _paths(ctx):
             for v in _case_variants(rng, e):
                 for s in rng.sample(stems, min(per, len(stems))):
                     paths.append((group, s + "." + v))
+    for e in known:
+        for v in _lookalike_variants(e):
+            for s in rng.sample(stems, 2) + ["x"]:
+                paths.append(("lookalike-ext", s + "." + v))
+                paths.append(("lookalike-ext", s + "." + v.upper()))
     for s in stems:
         paths.append(("no-ext", s))
     return paths
@@ -192,6 +214,8 @@ def correspondence(ctx):
                     if total_mismatch <= 20:
                         broken.append(Broken("correspondence", "c07.route-history", f"impl=({sup},{ext}) upper={up} model=({o.get('sup')},{o.get('ext')})",
                                              case={"path": p, "mime": mime, "cfg": cfg, "history": True}))
+    # the documented extensions (README rows) under every configuration: judged on the real code on every run
+    violations += _documented_violations(ctx)
     # read_file dispatches to the same extractor (stubs installed in the extractor modules)
     broken += _read_file_dispatch(ctx)
     ctx.coverage["mismatches"] = total_mismatch
@@ -383,7 +407,7 @@ def _oracle_violations(ctx, paths):
                     add("equiv", f"is_supported_file({p!r})={sup} but get_extractor -> {ext} (mimetypes={cfg})", {"path": p, "cfg": cfg})
                 # case-insensitivity
                 for q in (p.upper(), p.lower()):
-                    if _impl(q) != (sup, ext):
+                    if q.lower() == p.lower() and _impl(q) != (sup, ext):  # 'ſ'.upper() is 'S': not a case variant in the sense of str.lower()
                         add("case", f"routing of {p!r} and {q!r} differs", {"path": p, "variant": q, "cfg": cfg})
                 by_ext.setdefault(p, (sup, ext))
         # extension decides: a known trailing extension gives the documented extractor under every config
@@ -399,6 +423,60 @@ def _oracle_violations(ctx, paths):
     return out
 
 
+def _readme_rows():
+    """Rows of the README format tables (back-quoted extensions of the "Extension" column): the documented extensions,
+    read here independently of tools/gen/router.py."""
+    import os, re
+    rows, on = [], False
+    for line in open(os.path.join(ctx_repo(), "README.md"), encoding="utf-8").read().splitlines():
+        cells = [c.strip() for c in line.strip().strip("|").split("|")]
+        if line.startswith("|") and len(cells) >= 3 and cells[1] == "Extension":
+            on = True
+            continue
+        if not line.startswith("|"):
+            on = False
+            continue
+        if on and not set(cells[1]) <= set("-: "):
+            exts = re.findall(r"`(\.[^`]+)`", cells[1])
+            if exts:
+                rows.append(exts)
+    return rows
+
+
+def ctx_repo():
+    import os
+    import sharepoint2text
+    return os.path.dirname(os.path.dirname(os.path.abspath(sharepoint2text.__file__)))
+
+
+def _documented_violations(ctx):
+    """The statement on the documented extensions themselves: each is supported by its EXTENSION (under the default, an
+    emptied and a hostile mimetypes configuration alike, in every case variant), the extensions documented in one row
+    reach one extractor, and the extractor does not change with the configuration."""
+    out, seen = [], {}
+    rows = _readme_rows()
+    for cfg in ("default", "empty", "hostile", "default"):
+        with _MimeConfig(cfg, ctx.rng):
+            for row in rows:
+                got = {}
+                for e in row:
+                    for v in (e, e.upper(), e.capitalize()):
+                        for stem in ("x", "Dir.d/My File", "backup"):
+                            p = stem + v
+                            sup, ext = _impl(p)
+                            ctx.case(("documented", cfg, p))
+                            if sup is not True or ext.startswith("ERR"):
+                                if not any(x.key == "documented-ext-unsupported" for x in out):
+                                    out.append(Violation("documented-ext-unsupported", f"{p!r}: documented extension {e} gives is_supported_file={sup}, get_extractor -> {ext} (mimetypes={cfg})", {"path": p, "cfg": cfg, "documented": True}))
+                                continue
+                            got.setdefault(ext, p)
+                            if seen.setdefault(p, ext) != ext and not any(x.key == "documented-ext-mime-dependent" for x in out):
+                                out.append(Violation("documented-ext-mime-dependent", f"{p!r} reaches {seen[p]} and {ext} under different mimetypes configurations", {"path": p, "cfg": cfg, "documented": True}))
+                if len(got) > 1 and not any(x.key == "documented-row-differs" for x in out):
+                    out.append(Violation("documented-row-differs", f"extensions documented together {row} reach different extractors {got} (mimetypes={cfg})", {"path": sorted(got.values())[0], "cfg": cfg, "documented": True}))
+    return out
+
+
 def search(ctx, broken):
     rf = [(b.case["name"], b.case.get("target"), b.case.get("content", "x")) for b in broken if b.case and "name" in b.case]
     if rf or any(b.name == "c07.read_file" for b in broken):
@@ -410,7 +488,10 @@ def search(ctx, broken):
         vs = _oracle_violations(ctx, seeds[:40])
         if vs:
             return vs
-    allp = [p for _, p in _paths(ctx)]
+    vs = _documented_violations(ctx)
+    if vs:
+        return vs
+    allp = [p for g, p in _paths(ctx) if g == "lookalike-ext"] + [p for g, p in _paths(ctx) if g != "lookalike-ext"]
     for i in range(0, min(len(allp), 4000), 40):
         vs = _oracle_violations(ctx, allp[i:i + 40])
         if vs:
@@ -425,5 +506,8 @@ def replay(ctx, payload):
         return (not vs), "; ".join(v.what for v in vs) or "read_file dispatches like get_extractor on the recorded name"
     if "path" not in rep:
         return False, "replay names a broken obligation, not an input: " + payload.get("what", "")
+    if rep.get("documented"):
+        vs = _documented_violations(ctx)
+        return (not vs), "; ".join(v.what for v in vs) or "every documented extension is routed by its extension"
     vs = _oracle_violations(ctx, [rep["path"]])
     return (not vs), "; ".join(v.what for v in vs) or "property holds on the recorded path"
